@@ -3,7 +3,7 @@
    input, computed by the real go/types in the harness; the field-by-field agreement of the whole
    dump with go/types is decided by the correspondence run, the theorems below settle the parts
    that are gengo's own logic: name splitting, the builtin table, kinds, generic origins). *)
-Require Import Gengo.Base.Str Gengo.Model.Universe Gengo.Proofs.UniverseProofs Gengo.Proofs.CanonProofs Gengo.Proofs.FaithfulProofs.
+Require Import Gengo.Base.Str Gengo.Model.Universe Gengo.Proofs.UniverseProofs Gengo.Proofs.CanonProofs Gengo.Proofs.FaithfulProofs Gengo.Proofs.AliasProofs.
 
 (* tcNameToName / goNameToName: a spelling that is not an anonymous type's (and, for v2, carries no
    type arguments) is cut at its LAST dot: package path before it, a dot-free type name after it *)
@@ -130,6 +130,22 @@ Theorem C01_interface_faithful : forall v2 p, named_ok v2 p -> forall f u use t 
     Forall2 (fun m (x : str * name) => fst x = fst (fst m) /\ child_is v2 p (Some (name_of_string v2 (snd (fst m)))) (snd m) (snd x)) ms (e_methods e).
 Proof. exact iface_faithful. Qed.
 Print Assumptions C01_interface_faithful.
+
+(* a defined type over a basic, map, slice, pointer, ... type: Kind Alias, the underlying type's
+   canonical object, and one method per declared method, in order, each the canonical object of
+   its signature -- provided the entry was a bare placeholder (undecided, no methods yet; the
+   second part holds in every universe reached by lookups and loads, C11_loaded_universes_invariant) *)
+Theorem C01_defined_type_faithful : forall v2 p, named_ok v2 p -> forall f u use t tstr under ms tps origin u' o,
+  wf u -> canonical v2 u -> plookup t p = Some (tstr, SNamed 0 under ms tps origin) ->
+  walk v2 p (S f) u use t = Some (u', o) ->
+  let g := get_or_create v2 u (name_of_string v2 tstr) in
+  complete (fst g) (snd g) = false ->
+  (forall e0, nlookup (snd g) (objs (fst g)) = Some e0 -> e_methods e0 = []) ->
+  exists e, nlookup o (objs u') = Some e /\ e_kind e = s "Alias" /\
+            (exists nu, e_under e = Some nu /\ child_is v2 p None under nu) /\
+            Forall2 (method_is v2 p) ms (e_methods e).
+Proof. exact alias_faithful. Qed.
+Print Assumptions C01_defined_type_faithful.
 
 (* non-vacuity: p.T = struct{ A int8; B *p.T } *)
 Definition ex_prog : prog :=
